@@ -77,7 +77,84 @@ def _unmodelled(name):
 
 Delaunay = _unmodelled("scipy.spatial.Delaunay")
 ConvexHull = _unmodelled("scipy.spatial.ConvexHull")
-interp1d = _unmodelled("scipy.interpolate.interp1d")
+class interp1d:
+    """A4: scipy.interpolate.interp1d(kind='linear', assume_sorted=False): the piecewise-linear interpolant
+    through the knots sorted by x; outside [min x, max x]: fill_value (bounds_error=False) or ValueError."""
+
+    def __init__(self, x, y, kind="linear", axis=-1, copy=True, bounds_error=None, fill_value=float("nan"), assume_sorted=False):
+        _trust("scipy.interpolate.interp1d: piecewise-linear interpolant through the sorted knots, fill_value outside")
+        if kind != "linear":
+            raise UnmodelledDependency("interp1d kind != linear")
+        x = _base(to_symarray(_np.asarray(x) if not isinstance(x, _np.ndarray) else x))
+        y = _base(to_symarray(_np.asarray(y) if not isinstance(y, _np.ndarray) else y))
+        if x.ndim != 1:
+            raise ValueError("the x array must have exactly one dimension.")
+        self.axis = axis % y.ndim
+        if y.shape[self.axis] != x.shape[0]:
+            raise ValueError("x and y arrays must be equal in length along interpolation axis.")
+        if isinstance(fill_value, str):
+            raise UnmodelledDependency("interp1d extrapolate")
+        self.fill = fill_value
+        self.bounds_error = bool(bounds_error) if bounds_error is not None else (fill_value != fill_value)
+        ym = _np.moveaxis(y, self.axis, 0)  # (n, ...)
+        n = x.shape[0]
+        xs = [SymReal.lift(x[i]) if not isinstance(x[i], SymReal) else x[i] for i in range(n)] if x.dtype == object else [SymReal(float(v)) for v in x]
+        rows = [ym[i] for i in range(n)]
+        rows = [to_symarray(r) if not (isinstance(r, _np.ndarray) and r.dtype == object) else r for r in rows]
+        if not assume_sorted and not all(a.concrete and b.concrete and a.c < b.c for a, b in zip(xs, xs[1:])):
+            # odd-even transposition network on (x, y-row) pairs -- no forking
+            for rnd in range(n):
+                for i in range(rnd % 2, n - 1, 2):
+                    sw = xs[i] > xs[i + 1]
+                    if sw.c is False and sw.u is None:
+                        continue
+                    xa, xb = xs[i], xs[i + 1]
+                    xs[i], xs[i + 1] = ite(sw, xb, xa), ite(sw, xa, xb)
+                    ra, rb = rows[i], rows[i + 1]
+                    rows[i] = symnp.NP.where(_full(sw, ra.shape), rb, ra)
+                    rows[i + 1] = symnp.NP.where(_full(sw, ra.shape), ra, rb)
+        self.xs, self.rows = xs, rows
+        self.rest_shape = ym.shape[1:]
+
+    def __call__(self, xnew):
+        q = _base(to_symarray(_np.asarray(xnew) if not isinstance(xnew, _np.ndarray) else xnew))
+        scalar = q.ndim == 0
+        q = _np.atleast_1d(q)
+        if q.ndim != 1:
+            raise UnmodelledDependency("interp1d on multi-dimensional query")
+        n = len(self.xs)
+        out = _np.empty((q.shape[0],) + tuple(self.rest_shape), dtype=object)
+        fill = SymReal.lift(self.fill) if not isinstance(self.fill, SymReal) else self.fill
+        for j in range(q.shape[0]):
+            qj = SymReal.lift(q[j])
+            below, above = qj < self.xs[0], qj > self.xs[-1]
+            if self.bounds_error:
+                if bool(below | above):
+                    raise ValueError("A value in x_new is outside the interpolation range.")
+            for idx in (_np.ndindex(*self.rest_shape) if self.rest_shape else [()]):
+                # innermost default: last interval
+                val = None
+                for i in range(n - 2, -1, -1):
+                    x0, x1 = self.xs[i], self.xs[i + 1]
+                    y0, y1 = self.rows[i][idx], self.rows[i + 1][idx]
+                    seg = y0 + (y1 - y0) * ((qj - x0) / (x1 - x0))
+                    val = seg if val is None else ite(qj <= x1, seg, val)
+                if n == 1:
+                    val = self.rows[0][idx]
+                if not self.bounds_error:
+                    val = ite(below | above, fill, val)
+                out[(j,) + idx] = val
+        out = _np.moveaxis(out, 0, self.axis)
+        if scalar:
+            out = out.reshape(tuple(s_ for k_, s_ in enumerate(out.shape) if k_ != self.axis))
+        return out.view(SymArray)
+
+
+def _full(b, shape):
+    o = _np.empty(shape, dtype=object)
+    for idx in (_np.ndindex(*shape) if shape else [()]):
+        o[idx] = b
+    return o
 NMF = _unmodelled("sklearn.decomposition.NMF")
 PCA = _unmodelled("sklearn.decomposition.PCA")
 Generator = _unmodelled("numpy.random.Generator")
